@@ -85,6 +85,23 @@ def lake_build(targets, timeout=3000):
     return rc == 0, out + err
 
 
+def name_error(line):
+    """'error: Properties/C10.lean:715:76: ...' -> the same line with the declaration the position lies in, so that a
+    broken `Cxx_generated_*` theorem is reported by name and not only by line number"""
+    m = re.search(r"((?:Properties|Proofs|MammothModel)/[\w/.]+\.lean):(\d+):", line)
+    if not m:
+        return line
+    try:
+        src = open(os.path.join(LEAN, m.group(1))).read().splitlines()
+    except OSError:
+        return line
+    for i in range(min(int(m.group(2)), len(src)) - 1, -1, -1):
+        d = re.match(r"\s*(?:private\s+|protected\s+)?(theorem|lemma|def|abbrev|instance|example)\b\s*([A-Za-z0-9_'.]*)", src[i])
+        if d:
+            return "%s [in %s %s]" % (line, d.group(1), d.group(2) or "(anonymous)")
+    return line
+
+
 def theorem_names(prop):
     path = os.path.join(LEAN, "Properties", prop + ".lean")
     src = open(path).read()
@@ -157,7 +174,7 @@ def prove(prop, tier="quick"):
         st = {}
     ok_b, out = lake_build(["MammothModel", "Properties.%s" % prop, "driver"])
     if not ok_b:
-        errs = [l for l in out.splitlines() if "error" in l.lower()]
+        errs = [name_error(l) for l in out.splitlines() if "error" in l.lower()]
         problems.append("lake build failed: " + " | ".join(errs[:6]))
         names = []
         try:
